@@ -1185,6 +1185,40 @@ func ruleBsClosed(p *Prog, r *RuleResult) {
 				}
 			}
 		}
+		if !okT {
+			// the test may sit in a guard helper called first thing (checkOpen()): a method of the same type, called
+			// before any store, whose own entry is "closed -> panic"
+			for _, in := range b.Instrs {
+				if st, ok := in.(*ssa.Store); ok {
+					if _, isAlloc := st.Addr.(*ssa.Alloc); !isAlloc {
+						break
+					}
+				}
+				c := callOf(in)
+				if c == nil {
+					continue
+				}
+				h := c.StaticCallee()
+				if h == nil || h.Blocks == nil || h.Signature.Recv() == nil || namedOf(h.Signature.Recv().Type()) != namedOf(f.Signature.Recv().Type()) {
+					break
+				}
+				if hi := blockIf(h.Blocks[0]); hi != nil {
+					atom, pos := condAtom(hi.Cond)
+					isClosedTest := false
+					if cc, ok := atom.(*ssa.Call); ok && cc.Call.StaticCallee() != nil && cc.Call.StaticCallee().Name() == "Closed" {
+						isClosedTest = true
+					}
+					if fv := fieldVarOfLoad(atom); fv != nil && fv.Name() == roleField(m[0], "closed") {
+						isClosedTest = true
+					}
+					tb := h.Blocks[0].Succs[succFor(pos, true)]
+					if _, isPanic := tb.Instrs[len(tb.Instrs)-1].(*ssa.Panic); isPanic && isClosedTest {
+						okT = true
+					}
+				}
+				break
+			}
+		}
 		if okT {
 			r.ok(fname+": tests the closed state first and fails", p.Pos(f.Pos()))
 		} else {
